@@ -205,6 +205,51 @@ def run(job, seed):
                             exp[i], got[i], 'table')
                     acc.outcome('row-%s-%s-%s' % (novr is not None,
                                                   old_ovr is not None, end))
+                # the operator flips enforce_new_defaults on the running
+                # service and the rules are loaded afresh: the row for the
+                # other setting applies (nothing of the first merge may stick
+                # to the registered default objects)
+                if two is not True and not noise and loc in ('main', 'dir'):
+                    conf.set_override('enforce_new_defaults', not end,
+                                      group='oslo_policy')
+                    try:
+                        enf.load_rules(force_reload=True)
+                        exp = ref_new(N, O, not end, new_ovr, old_ovr,
+                                      renamed, new1)
+                        if exp is not None:
+                            acc.case('table', True)
+                            acc.ev(16)
+                            got = decide_vec(enf, new1)
+                            if got != exp:
+                                i = [g != e for g, e in
+                                     zip(got, exp)].index(True)
+                                acc.violation(
+                                    'toggled|%s|to-end=%s|new_ovr=%s|old_ovr='
+                                    '%s|%s' % (
+                                        'renamed' if renamed else 'same-name',
+                                        not end, new_ovr is not None,
+                                        old_ovr is not None,
+                                        'allows' if got[i] is True else
+                                        'denies' if got[i] is False else
+                                        got[i]),
+                                    'after enforce_new_defaults was switched '
+                                    'from %s to %s and the rules reloaded, '
+                                    '%s decides %r for roles %s, the table '
+                                    'says %r' % (end, not end, new1, got[i],
+                                                 sorted(SUBSETS[i]), exp[i]),
+                                    {'renamed': renamed, 'two': two,
+                                     'new_default': N, 'old_default': O,
+                                     'enforce_new_defaults': end,
+                                     'new_override': new_ovr,
+                                     'old_override': old_ovr,
+                                     'location': loc,
+                                     'then': 'option toggled'},
+                                    exp[i], got[i], 'table')
+                            acc.outcome('row-after-toggle-%s' % (not end))
+                    finally:
+                        conf.set_override('enforce_new_defaults', end,
+                                          group='oslo_policy')
+                        enf.load_rules(force_reload=True)
                 # ... and then the operator takes the old-name override out
                 # again: the row without it applies (same long-lived enforcer)
                 if old_ovr is not None and two is not True and not noise:
